@@ -46,6 +46,10 @@ def get_attr(it, o, name):
             return it.call(ga, [o, name], {})
         if name in ("__setattr__", "__delattr__", "__getattribute__", "__init__", "__eq__", "__hash__", "__repr__", "__str__", "__ne__"):
             return _object_method(it, name, o)
+        if o.cls.builtin and not getattr(it, "_probing", False):
+            # a harness stub that does not model this attribute: a limit of the harness, not an
+            # AttributeError of the program under verification
+            raise Unsupported(f"attribute {name} of the stub object {o.cls.name}")
         raise PyRaise(it.make_exc("AttributeError", f"'{o.cls.name}' object has no attribute '{name}'"))
     if isinstance(o, ClassVal):
         if name == "__name__":
